@@ -60,6 +60,25 @@ def aux_list(it):
     return [[canon(a.entry), nm(a.name)] for a in it]
 
 
+def _mode(data):
+    """consumption order of the auxiliary iterators, derived from the file content (replays identically)"""
+    return (sum(data[-64:]) + sum(data[:24]) + len(data) // 8) % 3
+
+
+def versions_obs(s, mode):
+    """`iter_versions()` hands out one auxiliary iterator per entry.  The property is about what they yield, not about
+    when the caller drains them: mode 0 drains each inside the loop, mode 1 collects the pairs first and drains
+    afterwards, mode 2 drains them in reverse order (a seeded late-binding closure was missed by mode 0 alone)."""
+    if mode == 0:
+        return [[canon(v.entry), nm(v.name), aux_list(it)] for v, it in s.iter_versions()]
+    pairs = list(s.iter_versions())
+    auxs = [None] * len(pairs)
+    order = range(len(pairs)) if mode == 1 else range(len(pairs) - 1, -1, -1)
+    for i in order:
+        auxs[i] = aux_list(pairs[i][1])
+    return [[canon(v.entry), nm(v.name), a] for (v, _), a in zip(pairs, auxs)]
+
+
 def observe(data, sec, queries):
     """Everything the property observes of section `sec`, through the public API."""
     from elftools.elf.elffile import ELFFile
@@ -69,7 +88,18 @@ def observe(data, sec, queries):
     out = {'kind': kind}
     if kind in ('GNUVerNeedSection', 'GNUVerDefSection'):
         out['num'] = run_impl(lambda: s.num_versions())
-        out['versions'] = run_impl(lambda: [[canon(v.entry), nm(v.name), aux_list(it)] for v, it in s.iter_versions()])
+        def versions():
+            mode = _mode(data)
+            if mode == 0:
+                return versions_obs(s, 0)
+            try:
+                return versions_obs(s, mode)
+            except Exception:
+                # on a damaged table the in-order walk defines WHICH error is raised; a deferred walk may meet another
+                # one first.  Report the in-order error of a fresh object; if that walk succeeds, the deferred failure stands.
+                versions_obs(ELFFile(io.BytesIO(data)).get_section(sec), 0)
+                raise
+        out['versions'] = run_impl(versions)
         if kind == 'GNUVerNeedSection':
             out['has_indexes'] = run_impl(lambda: elf.get_section(sec).has_indexes())
 
